@@ -49,7 +49,8 @@ StartCall ==
     /\ pc = "root"
     /\ \E i \in 1..NTr :
          LET e == Tr[i]  n == e.count
-         IN  /\ idx' = i
+         IN  /\ e.op = "heap"
+             /\ idx' = i
              /\ scalars' = SubSeq([j \in 1..n |-> FromBytes(e.scalars[j])], 1, n)
              /\ points' = SubSeq([j \in 1..n |-> [k |-> FromBytes(e.points[j].k), t |-> e.points[j].t]], 1, n)
              /\ count' = n
